@@ -416,3 +416,54 @@ pub fn stream_cmpstr(out: &mut impl Write, seed: u64, budget: usize) {
         if rng.chance(1, 2) { emit_cmpstr(out, vi, &l, &r); } else { emit_cmpstr(out, vi, &r, &l); }
     }
 }
+
+
+// ---------------------------------------------------------------------------
+// hugestream: the stream helper fed MAX, MAX + k bytes with a read boundary exactly at MAX (C11 / C12).
+// About 4.2 GB are really hashed per case (~30 s in a release build; skipped in dev builds); the cases
+// run concurrently.
+// ---------------------------------------------------------------------------
+
+struct SeamReader { first: u64, extra: u64, pos: u64 }
+
+impl Read for SeamReader {
+    fn read(&mut self, buf: &mut [u8]) -> std::io::Result<usize> {
+        if buf.is_empty() { return Ok(0); }
+        let end = if self.pos < self.first { self.first } else { self.first + self.extra };
+        let n = ((end - self.pos) as usize).min(buf.len());   // short read at the seam, like `Chain`
+        for (i, b) in buf[..n].iter_mut().enumerate() { *b = ((self.pos as usize + i) as u8).wrapping_mul(31) ^ ((self.pos >> 8) as u8); }
+        self.pos += n as u64;
+        Ok(n)
+    }
+}
+
+/// `hstream <vi> <first> <extra> => toolarge|ok:<length code>|other:<…>`
+pub fn stream_hugestream(out: &mut impl Write) {
+    if cfg!(debug_assertions) { return; }
+    const MAX: u64 = 4_224_281_216;
+    let cases: [(usize, u64, u64); 3] = [(1, MAX, 0), (1, MAX, 16), (4, MAX, 1)];
+    let lines: Vec<String> = std::thread::scope(|sc| {
+        let hs: Vec<_> = cases.iter().map(|&(vi, first, extra)| sc.spawn(move || {
+            with_variant!(vi, T => {
+                let r = guarded(|| {
+                    let mut rd = SeamReader { first, extra, pos: 0 };
+                    match tlsh::hash_stream_for::<T, _>(&mut rd) {
+                        Ok(h) => format!("ok:{}", h.length().value()),
+                        Err(tlsh::GeneratorOrIOError::GeneratorError(tlsh::GeneratorError::TooLargeInput)) => "toolarge".to_string(),
+                        Err(e) => format!("other:{:?}", e).replace(' ', "_"),
+                    }
+                });
+                let res = match r { Ok(s) => s, Err(()) => "panic".to_string() };
+                let head = format!("hstream {} {} {}", vi, first, extra);
+                let expect = if first + extra > MAX { "toolarge".to_string() } else { "ok:169".to_string() };
+                let mut l = format!("{} => {}", head, res);
+                if res != expect {
+                    l.push_str(&format!("\nORACLE C11 stream-of-{}-bytes-gives-{}-instead-of-{} {}\nORACLE C12 stream-did-not-hash-all-delivered-bytes {}", first + extra, res, expect, head, head));
+                }
+                l
+            })
+        })).collect();
+        hs.into_iter().map(|h| h.join().unwrap()).collect()
+    });
+    for l in lines { writeln!(out, "{}", l).unwrap(); }
+}
